@@ -18,7 +18,7 @@ instance reproduces the C++ result bit for bit:
   Torus / Sphere             inherit the compound clause
   MobiusStateSpace.cpp       cylinder branch / seam branch with the second mirror test on the new u
   KleinBottleStateSpace.cpp  cylinder branch / seam branch (u wraps by pi, v mirrored on the side that
-                             did not cross, then its own copy of the SO(2) wrap — still with `v > pi`)
+                             did not cross, then its own copy of the SO(2) wrap, fixed by the same diff)
   WrapperStateSpace.h        = inner space
 
 Also modelled (used by the theorems and compared by the driver where printed): `satisfiesBounds`
@@ -56,7 +56,7 @@ def so2Wrap (v : α) : α :=
   else if v < -Num.pi then v + 2 * Num.pi
   else v
 
-/-- the wrap before the fix: `if (v > pi) …` (still what KleinBottleStateSpace.cpp does for its v) -/
+/-- the wrap before the fix: `if (v > pi) …` (SO2StateSpace.cpp and its copy in KleinBottleStateSpace.cpp) -/
 def so2WrapOld (v : α) : α :=
   if Num.pi < v then v - 2 * Num.pi
   else if v < -Num.pi then v + 2 * Num.pi
@@ -114,8 +114,10 @@ def mobiusInterp (so2 : α → α → α → α) (u1 v1 u2 v2 t : α) : α × α
 /-- `v > 0 ? pi - v : -pi - v` -/
 def kleinMirror (v : α) : α := if 0 < v then Num.pi - v else -Num.pi - v
 
-/-- KleinBottleStateSpace::interpolate on (u, v); `so2` is the SO(2) component's interpolate -/
-def kleinInterp (so2 : α → α → α → α) (u1 v1 u2 v2 t : α) : α × α :=
+/-- KleinBottleStateSpace::interpolate on (u, v); `so2` is the SO(2) component's interpolate (cylinder
+branch), `wrap` the final wrap of the seam branch's own copy of the SO(2) code (`so2Wrap` after the
+F4 fix, which patches this copy too; `so2WrapOld` before) -/
+def kleinInterp (so2 : α → α → α → α) (wrap : α → α) (u1 v1 u2 v2 t : α) : α × α :=
   let diffU := u2 - u1
   if Num.abs diffU ≤ half * Num.pi then (lerp u1 u2 t, so2 v1 v2 t)
   else
@@ -127,14 +129,14 @@ def kleinInterp (so2 : α → α → α → α) (u1 v1 u2 v2 t : α) : α × α 
     let v2' := if crossed then v2 else kleinMirror v2
     let diffV := v2' - v1'
     let v := if Num.abs diffV ≤ Num.pi then v1' + diffV * t
-             else so2WrapOld (v1' - longWay diffV * t)
+             else wrap (v1' - longWay diffV * t)
     (u, v)
 
 /-! ### all spaces -/
 
-/-- every space, parametrised by the SO(2) leaf interpolation (`so2Interp` = the fixed code,
-`so2InterpOld` = the code before the F4 fix) -/
-def interpolateW (so2 : α → α → α → α) : Space α → St α → St α → α → St α
+/-- every space, parametrised by the SO(2) leaf interpolation and the wrap of Klein's copy of it
+(`so2Interp`/`so2Wrap` = the fixed code, `so2InterpOld`/`so2WrapOld` = the code before the F4 fix) -/
+def interpolateW (so2 : α → α → α → α) (wrap : α → α) : Space α → St α → St α → α → St α
   | .rv _ _, .rv xs, .rv ys, t => .rv (rvInterp xs ys t)
   | .so2, .so2 a, .so2 b, t => .so2 (so2 a b t)
   | .so3, .so3 x1 y1 z1 w1, .so3 x2 y2 z2 w2, t => so3Interp x1 y1 z1 w1 x2 y2 z2 w2 t
@@ -142,7 +144,7 @@ def interpolateW (so2 : α → α → α → α) : Space α → St α → St α 
   | .disc .., .disc a, .disc b, t => .disc (discInterp a b t)
   | .cnil, .cnil, .cnil, _ => .cnil
   | .ccons _ h tl, .ccons ah at', .ccons bh bt, t =>
-    .ccons (interpolateW so2 h ah bh t) (interpolateW so2 tl at' bt t)
+    .ccons (interpolateW so2 wrap h ah bh t) (interpolateW so2 wrap tl at' bt t)
   | .torus _ _, .ccons (.so2 a1) (.ccons (.so2 a2) .cnil), .ccons (.so2 b1) (.ccons (.so2 b2) .cnil), t =>
     .ccons (.so2 (so2 a1 b1 t)) (.ccons (.so2 (so2 a2 b2 t)) .cnil)
   | .sphere _, .ccons (.so2 a1) (.ccons (.rv [a2]) .cnil), .ccons (.so2 b1) (.ccons (.rv [b2]) .cnil), t =>
@@ -150,17 +152,17 @@ def interpolateW (so2 : α → α → α → α) : Space α → St α → St α 
   | .mobius _ _, .ccons (.so2 u1) (.ccons (.rv [v1]) .cnil), .ccons (.so2 u2) (.ccons (.rv [v2]) .cnil), t =>
     .ccons (.so2 (mobiusInterp so2 u1 v1 u2 v2 t).1) (.ccons (.rv [(mobiusInterp so2 u1 v1 u2 v2 t).2]) .cnil)
   | .klein, .ccons (.rv [u1]) (.ccons (.so2 v1) .cnil), .ccons (.rv [u2]) (.ccons (.so2 v2) .cnil), t =>
-    .ccons (.rv [(kleinInterp so2 u1 v1 u2 v2 t).1]) (.ccons (.so2 (kleinInterp so2 u1 v1 u2 v2 t).2) .cnil)
-  | .wrap s, a, b, t => interpolateW so2 s a b t
+    .ccons (.rv [(kleinInterp so2 wrap u1 v1 u2 v2 t).1]) (.ccons (.so2 (kleinInterp so2 wrap u1 v1 u2 v2 t).2) .cnil)
+  | .wrap s, a, b, t => interpolateW so2 wrap s a b t
   | _, a, _, _ => a
 
 /-- `StateSpace::interpolate` of the (fixed) tree -/
-@[reducible] def interpolate : Space α → St α → St α → α → St α := interpolateW so2Interp
+@[reducible] def interpolate : Space α → St α → St α → α → St α := interpolateW so2Interp so2Wrap
 
 /-- the same with the SO(2) clause of the code *before* the F4 fix (for the witness theorem and for
 `drv_spaceinterp`'s `old` fields, which let the check tell "tree not yet fixed" from a genuine
 disagreement) -/
-@[reducible] def interpolateOld : Space α → St α → St α → α → St α := interpolateW so2InterpOld
+@[reducible] def interpolateOld : Space α → St α → St α → α → St α := interpolateW so2InterpOld so2WrapOld
 
 /-! ### satisfiesBounds / equalStates as coded -/
 
